@@ -152,6 +152,10 @@ def worker(ctx, shard):
                 for k in ("minPos", "maxPos"):
                     if k not in opts and k in first and rng.random() < 0.6:
                         opts[k] = None if k == "maxPos" else 0  # explicitly remove / reset the bound of the first configuration
+                eff = dict({"minPos": 0, "maxPos": None}, **first)
+                eff.update(opts)
+                if eff["minPos"] is not None and eff["maxPos"] is not None and eff["maxPos"] <= eff["minPos"]:
+                    opts["maxPos"] = None  # an upper bound left over from the first configuration below the new lower bound: not a configuration
             run_engine(ctx, mon, labels, opts, tag, first=first)
     elif shard["kind"] == "insitu-exports" or (shard["kind"] == "replay-case" and "spec" in shard["case"]):
         from props import export_common as EC
